@@ -6,7 +6,16 @@ This implements the new MCP specification (2025-03-26) that replaces SSE transpo
 """
 
 from typing import Optional, Dict
-from pydantic import field_validator, model_validator
+try:
+    from pydantic import field_validator, model_validator
+except ImportError:  # Pydantic is optional: without it the fallback base class is used
+
+    def field_validator(*_args, **_kwargs):  # type: ignore[no-redef]
+        return lambda func: func
+
+    def model_validator(*_args, **_kwargs):  # type: ignore[no-redef]
+        return lambda func: func
+
 from ..base import TransportParameters
 from chuk_mcp.protocol.mcp_pydantic_base import McpPydanticBase
 
